@@ -45,6 +45,21 @@ def bail(v):
     raise SystemExit(v)
 
 
+class Quits:
+    """A value that evaluates fine and ends the interpreter when it is turned into a number or into text."""
+
+    def __float__(self):
+        raise SystemExit("no number")
+
+    def __str__(self):
+        raise SystemExit("no text")
+
+    __repr__ = __str__
+
+
+QUITS = Quits()
+
+
 def leaf(n, label, items, flag):
     marker = 0  # @hit
     return marker
@@ -52,9 +67,11 @@ def leaf(n, label, items, flag):
 VALUE_EXPRS = [None, None, '', 'n', 'n * 2', 'len(items)', 'weight(n)', 'FACTOR', 'float(n) / 4', 'flag', '-n',
                'label', 'items', 'None', 'nope_zz', '1/0', 'n / (n - n)', 'sum(items)', '10 ** 3', 'float("inf")',
                '10 ** 400', '(n + 1) * 10 ** 400', 'complex(n, 1)', '[n]', 'b"5"', 'bail(n)',
-               'sum(i * n for i in items)', '(lambda: n + len(items))()']
+               'sum(i * n for i in items)', '(lambda: n + len(items))()', 'QUITS',
+               'sum(i * FACTOR for i in items) + FACTOR', '(lambda: weight(n))()']
 LABEL_EXPRS = ['label', 'n', 'REGION', 'len(items)', 'label.upper()', 'flag', 'weight(n)', 'nope_zz', 'items[99]',
-               'bail(n)', '"-".join(str(i + n) for i in items)']
+               'bail(n)', '"-".join(str(i + n) for i in items)', 'QUITS',
+               '"/".join(REGION for _ in items)']
 STATICS = ['fixed', 'eu', 7, True, 1.5, '', 0, False, 0.0]
 
 
@@ -195,6 +212,11 @@ def case_metric(seed, out, spec, wd):
                         labels[key] = ('is', v)
                     else:
                         lv, lfail = rec_eval(v, frame)
+                        if lfail is None:
+                            try:
+                                str(lv)
+                            except BaseException:  # noqa - the value evaluates, its text form fails: a failed label
+                                lfail = True
                         labels[key] = ('any', None) if lfail is not None else ('is', lv)
                 exp[(d['name'], d['type'], d['namespace'] or 'deep')] = (d['type'], labels, value, vfail)
             expected.append(exp)
